@@ -147,6 +147,9 @@ class World:
         self.seam_hooks = {}         # ordinal -> list of (kind, payload) applied at that seam call
         self.on_main_seam = None     # callable(name) run at every main-thread seam (signal delivery)
         self.main_wake = None        # callable(blocked_in) -> True when a deliverable signal is pending
+        self.on_quiescent = None     # callable() -> True if it injected something that may wake a thread
+        self.on_main_line = None     # callable() run at traced line boundaries of the main thread
+        self.main_waited = False     # the clock advanced while the main thread was blocked
         self.probes = {}
         self.faults = {}
         self.access = []             # (thread idx, object) accesses for the interleaving measure
@@ -208,6 +211,27 @@ class World:
     def time(self):
         self.now += self.time_cost
         return self.now
+
+    def line_point(self):
+        """a traced line boundary in curtsies/input.py: a pre-emption point and, for the main
+        thread, a point where handlers that return normally may run"""
+        if self.aborting:
+            return
+        if self.current is self.main and self.on_main_line is not None:
+            self.on_main_line()
+        self.yield_point()
+
+    def make_tracer(self, filename):
+        def local(frame, event, arg):
+            if event == "line":
+                self.line_point()
+            return local
+
+        def tracer(frame, event, arg):
+            if event == "call" and frame.f_code.co_filename == filename:
+                return local
+            return None
+        return tracer
 
     # ------------------------------------------------------------- scheduling
     def yield_point(self):
@@ -335,8 +359,12 @@ class World:
                     if nxt_t is None or d < nxt_t:
                         nxt_t = d
             if nxt_t is None:
+                if self.on_quiescent is not None and self.on_quiescent():
+                    continue
                 return None
             if nxt_t > self.now:
+                if self.main.state == "blocked":
+                    self.main_waited = True
                 self.now = nxt_t
             if self.env and self.env[0][0] <= self.now:
                 self._apply_env(heapq.heappop(self.env))
